@@ -31,13 +31,22 @@ def run(chk, repo):
     chk.rule("C18-E3", "image rows (header) and per-line variables (parsed records) share one dimension name", 3)
     chk.rule("C18-E4", "handlers on the open path that do not re-raise only cover the cache lookup or collect errors that are raised later", 2)
     chk.rule("C18-E5", "leader / volume directory / image descriptor structs consist of definite-width fields", 3)
-    e1(chk, op)
-    e2(chk, op)
-    e3(chk, op)
-    e4(chk, op)
+    chk.attempt(e1, chk, op)
+    chk.attempt(e2, chk, op)
+    chk.attempt(e3, chk, op)
+    chk.attempt(e4, chk, op)
+    from ..layout import UnmodelledConstruct
     L = Layouts(repo)
+    SWALLOWING = {"Optional", "Select", "GreedyRange", "GreedyBytes", "GreedyString", "Peek", "RepeatUntil", "Default", "NullTerminated", "CString", "StopIf", "IfThenElse", "If", "Switch", "LazyStruct", "Lazy"}
     for key in ("leader", "volume", "image_descriptor"):
-        leaves, end, _ = L.get(key)
+        try:
+            leaves, end, _ = L.get(key)
+        except UnmodelledConstruct as e:
+            if e.name in SWALLOWING:
+                chk.fail("C18-E5", key, f"construct.{e.name} in the {key} layout: it accepts short or missing input (parse errors are swallowed / the rest of the stream is taken as is), "
+                                        f"so a truncated file can yield a tree instead of an error", key=f"{key}:{e.name}")
+                continue
+            raise
         chk.ok("C18-E5", key, f"{len(leaves)} leaves, every field consumes a definite number of bytes (layout fully modelled, end = {end})")
     chk.count("functions", len(op.reach))
 
@@ -104,6 +113,21 @@ def e2(chk, op):
     chk.require(size_guard, "C18-E2", where, "raises when len(content) is not a multiple of the record size",
                 "parse_chunk no longer rejects a chunk that is not a whole number of records: a file cut inside a record is parsed from shifted bytes", key="parse_chunk:size-guard")
     chk.require(type_guard, "C18-E2", where, "raises on an unknown record type", "parse_chunk no longer rejects unknown record types", key="parse_chunk:type-guard")
+    # the size guard only works if parse_chunk is handed exactly the bytes the read returned
+    rm = mod.func("read_metadata")
+    io_calls = [n for n in ast.walk(rm.node) if isinstance(n, ast.Call) and isinstance(n.func, ast.Attribute) and n.func.attr in ("read", "readinto", "readinto1", "readline", "recv_into")]
+    if not io_calls:
+        raise AnalysisError(f"{mod.relpath}:read_metadata: no read call found")
+    intos = [n for n in io_calls if n.func.attr.startswith("readinto") or n.func.attr == "recv_into"]
+    ignored = []
+    for n in intos:
+        par = getattr(n, "_parent", None)
+        if isinstance(par, ast.Expr):
+            ignored.append(n)  # return value (number of bytes actually read) dropped
+    chk.require(not ignored, "C18-E2", f"{mod.relpath}:read_metadata",
+                "every read hands back exactly the bytes that arrived (f.read(n), or readinto with its count checked): a short read trips the size guard",
+                f"`{short(ignored[0], 50) if ignored else ''}` fills a preallocated buffer and its returned byte count is dropped: after a short read the buffer keeps its full length "
+                f"(stale bytes of the previous request), so a truncated image is parsed instead of rejected", key="read_metadata:short-read-hidden")
 
 
 def e3(chk, op):
